@@ -768,3 +768,100 @@ func runEnvelopeDecoded(c *Ctx) {
 		c.Bad("envelope-decoded/none", hw.Pos(), "handleWebSocket does not test the error of json.Unmarshal into the envelope")
 	}
 }
+
+// ---------------------------------------------------------------------------
+// F76
+
+func init() {
+	Register(&Rule{
+		Name:  "R-REQUEST-ANSWERED-ONCE",
+		Props: []string{"C15"},
+		Min:   1,
+		Doc: "a ResumeRequest for a file is answered once (F76): in the receiver's handler of ResumeRequest the call that builds the report - a copy of the file's whole bitmap, up to 8 MiB, queued for a peer that may not be reading - is reached only past the false edge of a per-file flag that the handler sets (a field of the file's state, read and set in the handler) - " +
+			"a sender could repeat the 27-byte request at will: 2 KB of requests kept half a gigabyte alive",
+		Run: runRequestAnsweredOnce,
+	})
+}
+
+func runRequestAnsweredOnce(c *Ctx) {
+	p := c.P
+	recv := p.Func("transfer.RecvManifestMultiStream")
+	if recv == nil {
+		c.MissingAnchor("transfer.RecvManifestMultiStream")
+		return
+	}
+	var hrr, bri *FuncInfo
+	for _, k := range allKids(recv) {
+		if strings.HasSuffix(k.Name, "$handleResumeRequest") {
+			hrr = k
+		}
+		if strings.HasSuffix(k.Name, "$buildResumeInfo") {
+			bri = k
+		}
+	}
+	if hrr == nil || bri == nil {
+		c.MissingAnchor("RecvManifestMultiStream$handleResumeRequest / $buildResumeInfo")
+		return
+	}
+	info := hrr.Info()
+	// flags: bool fields of the file state that the handler sets to true
+	flags := map[types.Object]bool{}
+	InspectNoLits(hrr.Body, func(m ast.Node) bool {
+		as, ok := m.(*ast.AssignStmt)
+		if !ok || len(as.Lhs) != 1 || len(as.Rhs) != 1 || types.ExprString(as.Rhs[0]) != "true" {
+			return true
+		}
+		if sel, ok := ast.Unparen(as.Lhs[0]).(*ast.SelectorExpr); ok {
+			if fv, ok := info.Uses[sel.Sel].(*types.Var); ok && fv.IsField() && isBool(fv.Type()) {
+				flags[fv] = true
+			}
+		}
+		return true
+	})
+	// locals that hold the flag's earlier value
+	held := map[types.Object]bool{}
+	InspectNoLits(hrr.Body, func(m ast.Node) bool {
+		as, ok := m.(*ast.AssignStmt)
+		if !ok || len(as.Lhs) != 1 || len(as.Rhs) != 1 {
+			return true
+		}
+		if sel, ok := ast.Unparen(as.Rhs[0]).(*ast.SelectorExpr); ok {
+			if fv, ok := info.Uses[sel.Sel].(*types.Var); ok && flags[fv] {
+				if o := ObjOf(info, as.Lhs[0]); o != nil {
+					held[o] = true
+				}
+			}
+		}
+		return true
+	})
+	spec := &PassSpec{Name: "once", Vias: []Via{{Cond: func(g *FuncInfo, e ast.Expr) (string, bool, bool) {
+		e = ast.Unparen(e)
+		if o := ObjOf(g.Info(), e); o != nil && held[o] {
+			return "first-request", false, true
+		}
+		if sel, ok := e.(*ast.SelectorExpr); ok {
+			if fv, ok := g.Info().Uses[sel.Sel].(*types.Var); ok && flags[fv] {
+				return "first-request", false, true
+			}
+		}
+		return "", false, false
+	}}}}
+	n := 0
+	hrr.CFG().Calls(func(r NodeRef, call *ast.CallExpr) {
+		id, ok := ast.Unparen(call.Fun).(*ast.Ident)
+		if !ok {
+			return
+		}
+		v, ok := ObjOf(info, id).(*types.Var)
+		if !ok || p.ClosureOfVar(v) != bri {
+			return
+		}
+		n++
+		c.Check(spec.Passed(hrr, r, "first-request"), fmt.Sprintf("request-answered-once/build#%d", n), call.Pos(), "the report is built only for the file's first request",
+			"handleResumeRequest builds (and queues) a resume report for every request it is sent: each one copies the file's whole bitmap - up to 8 MiB for a file announced in 64 Mi chunks - and waits in the control write queue for a peer that may not read; "+
+				"a sender that repeats the 27-byte request keeps up to 64 copies alive: half a gigabyte for about 2 KB of input")
+	})
+	if n == 0 {
+		c.Bad("request-answered-once/none", hrr.Pos(), "handleResumeRequest does not build a resume report")
+	}
+}
